@@ -251,6 +251,10 @@ def confirm(c, outs):
                         return True, f'{prof}: error range {r["start"]}..{r["end"]} outside {text!r} or off a character boundary'
     return False, 'real build neither panics nor misplaces an error'
 
+def validate(tier, seed, report):
+    from props import exprlib
+    return exprlib.validate_pipeline(seed, 60 if tier == 'quick' else 300)
+
 def known_match(k, c):
     case = c['case']
     if k.get('predicate') == 'huge-unit-power':
